@@ -26,7 +26,7 @@ CHECKS = {
     note="Machine integers treated as such (arguments > T_MIN); congruence step p*y mod p = 0 and all cpp_int behaviour only checked natively; libm sqrt assumed to be floor sqrt."),
  "C10": dict(
     engine="E1+E3", category="other", design_ref="DESIGN.md 4/C10, 3 (K24,K25)",
-    technique="CBMC DFCC contract on the extracted fgets/strip step with fgets/strlen contracts and a ghost index (proof for every 1024-byte buffer), loop contracts on the three extracted predicates (has_loops / has_non_positive_weights unbounded in m with a ghost edge, has_multiple_edges n<=5 with quantified invariants) + bounded enforcement of the reader/validator contracts against a grammar enumerator",
+    technique="CBMC DFCC contract on the extracted fgets/strip step with fgets/strlen contracts and a ghost index (proof for every 1024-byte buffer), on the extracted edge-line branch with the sscanf contract (undeclared vertex => error, default weight 1; proof), loop contracts on the three extracted predicates (has_loops / has_non_positive_weights unbounded in m with a ghost edge, has_multiple_edges n<=5 with quantified invariants) + bounded enforcement of the reader/validator contracts against a grammar enumerator",
     text="Line normalisation proved for every buffer satisfying the fgets contract (content preserved, only a trailing newline removed). The rest of the reader and the three predicates are a bounded stand-in: every text of a small DIMACS grammar (with/without final newline, comments in every slot, all weight forms, undeclared vertex) and every small multigraph. Found and repaired: last line without newline lost its last character.",
     note="sscanf/fgets executed from the real libc, not modelled; lines shorter than the buffer only; grammar bounded (n<=4, <=3/4 edge lines)."),
  "C12": dict(
